@@ -178,7 +178,15 @@ where
 		let mut amount_debited = 0;
 		t.num_inputs = lock_inputs.len();
 		for id in lock_inputs {
-			let mut coin = batch.get(&id.0, &id.1).unwrap();
+			let mut coin = batch.get(&id.0, &id.1)?;
+			// an output reserved (or spent) by another transaction since this one was
+			// initiated must not be reserved a second time
+			if coin.status == OutputStatus::Locked || coin.status == OutputStatus::Spent {
+				return Err(Error::GenericError(format!(
+					"Output {} is already {} by another transaction",
+					coin.key_id, coin.status
+				)));
+			}
 			coin.tx_log_entry = Some(log_id);
 			amount_debited += coin.value;
 			batch.lock_output(&mut coin)?;
